@@ -1,6 +1,7 @@
 """C10 - a query's record is independent of the other molecules and of file order."""
 import random
 
+from vf import core
 from vf import gen, pipeline, text
 from vf.core import Shard, rng_for
 
@@ -44,7 +45,7 @@ def run(case, wd, tag, extra=None, ref_text=None, query_text=None, queries=None,
     if query_text is not None:
         c['query_text'] = query_text
     c['extra_argv'] = list(extra or [])
-    r = pipeline.run_inprocess(c, wd, tag=tag, serial=True)
+    r = pipeline.run_forked(c, wd, tag=tag, serial=True)
     return r
 
 
@@ -150,7 +151,8 @@ def make_case(rng):
     s = rng.randint(0, min(len(ref) - n - 1, 60))
     sub = [p - ref[s] for p in ref[s:s + n]]
     sparse = [x + (rng.gauss(0, 150) if 0 < i < len(sub) - 1 else 0) for i, x in enumerate(sub)]
-    sparse += [rng.uniform(sub[0], sub[-1]) for _ in range(rng.randint(0, 4))]
+    # 0-60 % extra labels: a sparse query whose raw correlation at its true locus is below that of an all-ones island
+    sparse += [rng.uniform(sub[0], sub[-1]) for _ in range(rng.choice([rng.randint(0, 4), int(len(sub) * rng.uniform(0.3, 0.6))]))]
     sparse = sorted(sparse)
     if islands:
         step = rng.choice([2000, 2800, 3500])
